@@ -35,7 +35,7 @@ SIGS = {
     'g2': 'C05:graphite-empty-path',
 }
 
-ADV = ['\\', '"', '\n', '\r', ',', '=', '{', '}', '#', ' ', '\t', ' ', ' ', 'é', '\U0001F600', '\x00',
+ADV = ['\\', '"', '\n', '\r', ',', '=', '{', '}', '#', ' ', '\t', '\u00a0', '\u2028', '\u00e9', '\U0001F600', '\x00',
        ':', '.', ';', '-', '_']
 PLAIN = list('abxyzAZ019_')
 NUM_RE = re.compile(r'^[0-9A-Za-z.+-]+$')
@@ -63,7 +63,7 @@ def g_name(rng):
     if r < 0.50:
         return g_plain(rng) + '\n'                      # F2 shape
     if r < 0.58:
-        return g_plain(rng) + rng.choice([':', '.', ' ', '-', 'é']) + g_plain(rng)
+        return g_plain(rng) + rng.choice([':', '.', ' ', '-', '\u00e9']) + g_plain(rng)
     if r < 0.63:
         return '__' + g_plain(rng)
     if r < 0.68:
@@ -673,7 +673,7 @@ def graphite_push(reg, case, real_socket):
             c, _ = srv.accept()
         except socket.timeout:
             return
-        c.settimeout(5)
+        c.settimeout(1)
         while True:
             try:
                 d = c.recv(65536)
@@ -953,6 +953,17 @@ def classify(case, where, why, culprits, extra, other_fails):
 
 
 # ------------------------------------------------------------------------------------------------ driver correspondence
+def drv(ctx, reqs):
+    """ctx.driver.run, riding out a concurrent relink of the driver binary by another check (shared build tree)"""
+    import time
+    for attempt in range(40):
+        try:
+            return ctx.driver.run(reqs)
+        except OSError:            # binary momentarily missing / being written
+            time.sleep(2)
+    raise lib.Infra('driver binary unavailable for 80 s')
+
+
 def ctor_request(case, sp):
     typ = {'enum': 'stateset'}.get(sp['k'], sp['k'])
     ns = '-' if sp['k'] != 'enum' else str(len(sp['states']))
@@ -991,7 +1002,7 @@ def compare_with_driver(ctx, cases_extras):
         for f in b.fams[:2]:
             reqs.append('c05 metric_init %s %s %s %s' % ('1' if case['legacy'] else '0', lib.hx(f.name), lib.hx(f.type), lib.hx(f.unit)))
             checks.append(('minit', None, (f.name, f.type), small))
-    replies = ctx.driver.run(reqs)
+    replies = drv(ctx, reqs)
     if replies is None:
         return
     for rep, (kind, fmt, real, small) in zip(replies, checks):
@@ -1036,12 +1047,13 @@ def function_level(ctx):
     lines = ['a 1.0 1', ' 1.0 1', 'a  1', 'a 1.0 1 ', 'a b 1.0 1', 'a\t1.0 1', 'é 1 1', 'a 1.0 -1', 'a nan 12', 'a;b=c 1e+300 0',
              'a 1.0', ''] + [g_adv(rng, 0, 5) + ' ' + rng.choice(['1.0', 'x y', '']) + ' ' + rng.choice(['1', '', 'a']) for _ in range(60)]
     reqs = ['c05 sanitize ' + lib.hx(s) for s in strs] + ['c05 gline ' + lib.hx(l) for l in lines]
-    replies = ctx.driver.run(reqs)
+    replies = drv(ctx, reqs)
     for s in strs:
         out = graphite._sanitize(s)
         ctx.case(('san', s))
         ctx.count('fn:_sanitize')
-        if not COMP.match(out):
+        if not COMP.match(out) and ctx.dist.get('fail:C05:other:sanitize', 0) < 3:
+            ctx.count('fail:C05:other:sanitize')
             ctx.fail('C05:other:sanitize', '_sanitize(%r) = %r leaves a character outside [A-Za-z0-9_-]' % (s, out), {'fn': 'sanitize', 's': s})
     if replies is None:
         return
@@ -1115,7 +1127,7 @@ def run(ctx):
                 'Graphite prefix; both validation settings; a case is non-trivial when it collects at least one family; distinct by '
                 '(family names, types, sample counts, setting)')
     quick = ctx.tier == 'quick'
-    n = 3000 if quick else 60000
+    n = 3000 if quick else 40000
     if ctx.broken:
         n *= 2
     real_every = 0 if quick else 25
